@@ -1552,11 +1552,16 @@ impl DistributedTxCoordinator {
                                     "Cross-shard conflict detected, aborting"
                                 );
 
-                                // Phase 3a: Re-acquire pending lock to set abort state
+                                // Phase 3a: Re-acquire pending lock to set abort state.
+                                // No lock was held during phase 2: another thread may have
+                                // decided (abort vote, timeout) or removed the transaction.
                                 {
                                     let mut pending = self.pending.write();
-                                    if let Some(tx) = pending.get_mut(&tx_id) {
-                                        tx.phase = TxPhase::Aborting;
+                                    match pending.get_mut(&tx_id) {
+                                        Some(tx) if tx.phase == TxPhase::Preparing => {
+                                            tx.phase = TxPhase::Aborting;
+                                        },
+                                        _ => return Ok(None),
                                     }
                                 }
 
@@ -1584,6 +1589,13 @@ impl DistributedTxCoordinator {
             {
                 let mut pending = self.pending.write();
                 if let Some(tx) = pending.get_mut(&tx_id) {
+                    // No lock was held during phase 2: only a transaction that is still
+                    // Preparing may become Prepared (a concurrent vote may have moved it to
+                    // Aborting and queued the abort broadcast).
+                    if tx.phase != TxPhase::Preparing {
+                        return Ok(None);
+                    }
+
                     // Log phase transition to WAL BEFORE updating in-memory state
                     if let Err(e) = self.log_wal_entry(&TxWalEntry::PhaseChange {
                         tx_id,
